@@ -1038,7 +1038,8 @@ class TransferManager(BaseManager):
                     transfer._transfer_progress_callback
                 )
 
-        except OSError:
+        except (OSError, ValueError):
+            # ValueError: seek with an offset that does not fit (>= 2^63)
             logger.exception("error opening local file : %s", transfer.local_path)
             await transfer.state.fail(reason=FailReason.FILE_READ_ERROR)
             await connection.disconnect(CloseReason.REQUESTED)
